@@ -231,12 +231,12 @@ def gen_warned(rng, want=None):
 # values, features) the declaration carries and however its name is spelled.
 #
 # TWINS: a repeated non-map field declared BEFORE a map field whose name gives the same map-entry name
-# (`repeated int32 Foo_bar = 1; map<string, string> foo_bar = 2;`, both FooBarEntry) compiles from source and fails to
-# re-link on the unchanged tree (genuine defect: corpus/C10/map-entry-twin-*.proto, repair fixes/C10-map-entry-twin.diff).
-# The stratum is generated only with VERIF_C10_MAP_TWINS=1 (default off).
-MAP_TWINS = os.environ.get("VERIF_C10_MAP_TWINS", "0") == "1"
+# (`repeated int32 Foo_bar = 1; map<string, string> foo_bar = 2;`, both FooBarEntry) compiled from source and failed to
+# re-link on the pinned tree (genuine defect: corpus/C10/map-entry-twin-*.proto, repaired by the /repo fix commit recorded in
+# KNOWN_FINDINGS.txt, fixes/C10-map-entry-twin.diff). The stratum is on by default (VERIF_C10_MAP_TWINS=0 turns it off).
+MAP_TWINS = os.environ.get("VERIF_C10_MAP_TWINS", "1") == "1"
 # the tree under test has fixes/C10-map-entry-twin.diff applied: the correspondence uses the model of the repaired scan
-MAP_REPAIRED = os.environ.get("VERIF_C10_REPAIRED", "0") == "1"
+MAP_REPAIRED = os.environ.get("VERIF_C10_REPAIRED", "1") == "1"
 NAME_SHAPES = ["attrs%d", "foo_bar%d", "fooBar%d", "foo__bar%d", "_foo%d", "foo%d_", "foo1_2x%d", "FOO_BAR%d", "Foo%d", "a%d", "x_Y_z%d",
                "foo_Bar%d", "f%d_b_c", "__x%d", "X%dEntry", "entry%d"]
 TWIN_SHAPES = [("Foo_bar%d", "foo_bar%d"), ("foo_Bar%d", "foo_bar%d"), ("foo_bar%d", "fooBar%d"), ("Ab%d", "ab%d"), ("a_b%d", "a__b%d")]
@@ -659,10 +659,18 @@ def run(ctx):
             terms.append(t)
             meta.append(dict(rep, file=d["name"], refs=refs[:40]))
         for d in o.get("mcorr") or []:
+            if d.get("rl_all_err", 0) != d["rl_err"]:
+                # errors elsewhere: a file that depends on a failed file is not linked at all, its count says nothing
+                stats["map_corr_skipped"] = stats.get("map_corr_skipped", 0) + 1
+                continue
             mt = c_mfile(d)
             if mt not in mterms:
                 mterms[mt] = dict(rep, file=d["name"], map_facts=d)
-        for d in o.get("jcorr") or []:
+        # the JSON-name counts of the re-link presuppose that it got as far as validation: not after an error of another kind
+        aborted = any("JSON name" not in x for x in (o.get("object") or {}).get("errors") or [])
+        if aborted and o.get("jcorr"):
+            stats["json_corr_skipped"] = stats.get("json_corr_skipped", 0) + 1
+        for d in ([] if aborted else o.get("jcorr") or []):
             jt = c_jfile(d)
             if jt not in jterms:
                 jterms[jt] = dict(rep, file=d["name"], json_facts=d)
